@@ -70,6 +70,8 @@ type poller struct {
 	unixSockAddr string
 
 	ReadBuffer []byte // default reading buffer
+
+	regSeq int32 // last registration number handed out, see regOf
 }
 
 // add the connection to poller and handle its io events.
@@ -108,6 +110,7 @@ func (p *poller) addConn(c *Conn) error {
 	} else {
 		p.g.onUDPListen(c)
 	}
+	c.regSeq = atomic.AddInt32(&p.regSeq, 1)
 	p.g.connsUnix[fd] = c
 	err := p.addRead(fd)
 	if err != nil {
@@ -160,6 +163,7 @@ func (p *poller) addDialer(c *Conn) error {
 		return err
 	}
 	c.p = p
+	c.regSeq = atomic.AddInt32(&p.regSeq, 1)
 	p.g.connsUnix[fd] = c
 	c.isWAdded = true
 	err := p.addReadWrite(fd)
@@ -177,6 +181,23 @@ func (p *poller) addDialer(c *Conn) error {
 //go:norace
 func (p *poller) getConn(fd int) *Conn {
 	return p.g.connsUnix[fd]
+}
+
+// regOf returns what is stored next to the descriptor number in the epoll
+// data of fd: the registration number of the connection that owns it now.
+// A batch of events may be processed after a connection in it was closed
+// from elsewhere and its number given to a new connection; an event that
+// carries another registration number than the connection found under the
+// number was fetched for the previous owner and is dropped.
+//
+//go:norace
+func (p *poller) regOf(fd int) int32 {
+	if fd >= 0 && fd < len(p.g.connsUnix) {
+		if c := p.g.connsUnix[fd]; c != nil {
+			return c.regSeq
+		}
+	}
+	return 0
 }
 
 //go:norace
@@ -314,7 +335,7 @@ func (p *poller) readWriteLoop() {
 
 			default: // for socket connections
 				c := p.getConn(fd)
-				if c != nil {
+				if c != nil && c.regSeq == ev.Pad {
 					readPending := false
 					if ev.Events&epollEventsWrite != 0 {
 						if ev.Events&epollEventsError != 0 && c.onConnected != nil {
@@ -459,6 +480,7 @@ func (p *poller) setRead(op int, fd int) error {
 			if op == syscall.EPOLL_CTL_ADD {
 				return syscall.EpollCtl(p.epfd, op, fd, &syscall.EpollEvent{
 					Fd:     int32(fd),
+					Pad:    p.regOf(fd),
 					Events: events | syscall.EPOLLOUT,
 				})
 			}
@@ -466,6 +488,7 @@ func (p *poller) setRead(op int, fd int) error {
 		}
 		return syscall.EpollCtl(p.epfd, op, fd, &syscall.EpollEvent{
 			Fd:     int32(fd),
+			Pad:    p.regOf(fd),
 			Events: events,
 		})
 	default:
@@ -474,7 +497,8 @@ func (p *poller) setRead(op int, fd int) error {
 			op,
 			fd,
 			&syscall.EpollEvent{
-				Fd: int32(fd),
+				Fd:  int32(fd),
+				Pad: p.regOf(fd),
 				Events: syscall.EPOLLERR |
 					syscall.EPOLLHUP |
 					syscall.EPOLLRDHUP |
@@ -511,6 +535,7 @@ func (p *poller) setReadWrite(op int, fd int) error {
 			if op == syscall.EPOLL_CTL_ADD {
 				return syscall.EpollCtl(p.epfd, op, fd, &syscall.EpollEvent{
 					Fd:     int32(fd),
+					Pad:    p.regOf(fd),
 					Events: events,
 				})
 			}
@@ -518,13 +543,15 @@ func (p *poller) setReadWrite(op int, fd int) error {
 		}
 		return syscall.EpollCtl(p.epfd, op, fd, &syscall.EpollEvent{
 			Fd:     int32(fd),
+			Pad:    p.regOf(fd),
 			Events: events,
 		})
 	default:
 		return syscall.EpollCtl(
 			p.epfd, op, fd,
 			&syscall.EpollEvent{
-				Fd: int32(fd),
+				Fd:  int32(fd),
+				Pad: p.regOf(fd),
 				Events: syscall.EPOLLERR |
 					syscall.EPOLLHUP |
 					syscall.EPOLLRDHUP |
